@@ -12,6 +12,7 @@ import (
 	"reflect"
 	"sort"
 	"strings"
+	"time"
 
 	stackage "github.com/JesseCoretta/go-stackage"
 )
@@ -331,7 +332,27 @@ func valret(v any, ok bool) []string { return []string{Proj(v), b2s(ok)} }
 
 // Apply performs one call on the real object(s) and returns the projected
 // return values.  A panic is reported as ret = ["PANIC", message].
-func Apply(o, d *Obj, c Call) (ret []string) {
+func Apply(o, d *Obj, c Call) []string {
+	mtx := false
+	func() {
+		defer func() { _ = recover() }()
+		mtx = o.S.CanMutex() || (d != nil && d.S.CanMutex())
+	}()
+	if !mtx {
+		return applyInner(o, d, c)
+	}
+	// mutex-enabled: a call that never returns is a deadlock, not a hang of the harness
+	ch := make(chan []string, 1)
+	go func() { ch <- applyInner(o, d, c) }()
+	select {
+	case r := <-ch:
+		return r
+	case <-time.After(3 * time.Second):
+		return []string{"DEADLOCK", "call did not return within 3s"}
+	}
+}
+
+func applyInner(o, d *Obj, c Call) (ret []string) {
 	ret = []string{}
 	defer func() {
 		if r := recover(); r != nil {
@@ -518,6 +539,7 @@ type Obs struct {
 	IsEnc   string     `json:"isenc"`
 	Elems   []string   `json:"elems"`
 	Integ   string     `json:"integ"`
+	Locked  string     `json:"locked"`
 }
 
 func safeS(f func() string) (s string) {
@@ -551,6 +573,7 @@ var flagBits = []int{1, 2, 4, 8, 16, 32, 128, 256} // paren fold nspad lonce neg
 func Observe(s stackage.Stack) Obs {
 	var o Obs
 	o.Integ = "ok"
+	o.Locked = "false"
 	o.Init = safeS(func() string { return b2s(s.IsInit()) })
 	o.Len = safeI(s.Len)
 	o.Empty = safeS(func() string { return b2s(s.IsEmpty()) })
@@ -606,6 +629,9 @@ func Observe(s stackage.Stack) Obs {
 			}
 			if rl, _ := d["rawlen"].(int); rl != o.Len+1 {
 				o.Integ = fmt.Sprintf("raw length %d vs Len %d", rl, o.Len)
+			}
+			if cfg["ldr"] == true || cfg["mtxlocked"] == true {
+				o.Locked = "true"
 			}
 			opt, _ := cfg["opt"].(int)
 			for _, b := range flagBits {
